@@ -2,6 +2,7 @@
 import itertools
 
 from harness import common, layerb as B, schemes as S
+from harness.known import replay_known  # noqa: F401
 
 from univers.version_constraint import VersionConstraint
 
@@ -47,7 +48,9 @@ def correspondence(ctx):
     ctx.exhaustive = True
     for name in S.ALL:
         rng = ctx.rng("c07", name)
-        bench = B.Bench(name, rng, size=2 * L + 6)
+        # need_hash=False: versions whose hash disagrees with == stay in the pool (validate's set() is then wrong:
+        # maven, K09)
+        bench = B.Bench(name, rng, size=2 * L + 6, need_hash=False, respell=0.6)
         stream = "validate:" + name
         if not bench.ok(2 * L + 2):
             ctx.stream(stream)["skipped"] = "pool too small"
@@ -59,20 +62,24 @@ def correspondence(ctx):
         for k, (cons, line, ans) in enumerate(zip(jobs, lines, answers)):
             if k % 40 == 0:
                 m = bench.mapping(2 * L + 2, rng)
-            objs = B.real_cons(bench, cons, m, respell=rng)
-            arg = list(objs)
-            impl = B.res_bool(lambda: VersionConstraint.validate(arg))
             model, wf = ans.split(" ")
             expected = "ok:true" if wf == "true" else "err:ValueError"
-            ctx.count(stream, key=line, nontrivial=len(cons) >= 2, branch=expected,
-                      error=impl[4:] if impl.startswith("err:") else None)
-            if impl != expected:
-                d = B.describe(bench, cons, m, objs=objs)
-                d["python"] = ("from univers.versions import %s as V; from univers.version_constraint import VersionConstraint as C; "
-                               "print(C.validate([C.from_string(s, V) for s in %r]))" % (S.vclass(name).__name__, d["constraints"]))
-                ctx.disagree(stream, line, impl, model, True, d, spec=expected)
-            elif impl != model:
-                ctx.disagree(stream, line, impl, model, False, B.describe(bench, cons, m), spec=expected)
+            # a version that occurs again is tried in every other spelling the pool knows
+            for objs in B.real_cons_variants(bench, cons, m):
+                arg = list(objs)
+                impl = B.res_bool(lambda: VersionConstraint.validate(arg))
+                ctx.count(stream, key=line, nontrivial=len(cons) >= 2, branch=expected,
+                          error=impl[4:] if impl.startswith("err:") else None)
+                if impl != expected:
+                    d = B.describe(bench, cons, m, objs=objs)
+                    d["python"] = ("from univers.versions import %s as V; from univers.version_constraint import VersionConstraint as C; "
+                                   "print(C.validate([C.from_string(s, V) for s in %r]))" % (S.vclass(name).__name__, d["constraints"]))
+                    region = "maven-hash-of-text" if (name == "maven" and impl == "ok:true" and len({r for c, r in cons if c != "star"}) < len([1 for c, r in cons if c != "star"])) else None
+                    ctx.disagree(stream, line, impl, model, True, d, region=region, spec=expected)
+                    break
+                elif impl != model:
+                    ctx.disagree(stream, line, impl, model, False, B.describe(bench, cons, m), spec=expected)
+                    break
             if impl == "ok:true" and len(cons) <= 4:
                 # third clause: an accepted list can be tested for membership of any version
                 r = bench.rclass(constraints=objs)
@@ -85,6 +92,7 @@ def correspondence(ctx):
         if name == "pypi":
             ctx.sample({"line": lines[50], "model wf": answers[50], "scheme": name})
     _cross_scheme(ctx)
+    _duplicate_spellings(ctx)
 
 
 SHARED_TEXTS = ["1.0.0", "1.0.0-alpha", "1.0", "1.0.0-1", "1.0.0a", "1.0.0.1", "2.0.0", "1.0.0+1", "1.0.0~rc1", "1.0.0_p1",
@@ -146,3 +154,33 @@ def _cross_scheme(ctx):
                           "python": "from univers.versions import %s as V; from univers.version_constraint import VersionConstraint as C; "
                                     "print(C.validate([C.from_string(s, V) for s in %r]))" % (S.vclass(nm).__name__, cons)},
                          spec=expected)
+
+
+def _duplicate_spellings(ctx):
+    """one version named twice in two spellings (the respelling stream of the scheme correspondences): validation
+    must reject the list whatever the comparators"""
+    from harness import scheme_corr as SC
+    n = 4000 if ctx.thorough else 700
+    for name in S.ALL:
+        rng = ctx.rng("c07-dups", name)
+        stream = "duplicate-spellings:" + name
+        cls = S.vclass(name)
+        for a, b in SC.gen_pairs(name, rng, n):
+            if a == b:
+                continue
+            try:
+                va, vb = cls(a), cls(b)
+                if not (va == vb) or (va < vb) or (vb < va):
+                    continue
+            except Exception:  # noqa: BLE001
+                continue
+            c1, c2 = rng.choice(B.CMPRS), rng.choice(B.CMPRS)
+            arg = [VersionConstraint(comparator=B.TXT[c1], version=va), VersionConstraint(comparator=B.TXT[c2], version=vb)]
+            impl = B.res_bool(lambda: VersionConstraint.validate(arg))
+            ctx.count(stream, key=(a, b), nontrivial=True)
+            if impl != "err:ValueError":
+                ctx.disagree(stream, "validate %s%s|%s%s" % (B.TXT[c1], a, B.TXT[c2], b), impl, "err:ValueError", True,
+                             {"scheme": name, "constraints": [B.TXT[c1] + a, B.TXT[c2] + b],
+                              "clause": "the two versions are equal (==) but the list is accepted"},
+                             region="maven-hash-of-text" if name == "maven" else None, spec="err:ValueError")
+                break
